@@ -50,7 +50,7 @@ func histCfg(r *vlib.Run, i int) cfgSpec {
 }
 
 func runHistories(r *vlib.Run) {
-	n := r.N(140, 6000)
+	n := r.N(140, 12000)
 	for i := 0; i < n; i++ {
 		runOneHistory(r, i, histCfg(r, i), r.RandN("hist", i))
 		r.Progress("history %d/%d", i+1, n)
@@ -61,7 +61,7 @@ func runHistories(r *vlib.Run) {
 // the ordinary histories (virtual-clock steps, client cancellations) under
 // the race detector.
 func runBurstChild(r *vlib.Run) {
-	n := r.N(70, 2500)
+	n := r.N(70, 3500)
 	for i := 0; i < n; i++ {
 		rng := r.RandN("burst", i)
 		cs := histCfg(r, 100000+i)
@@ -78,7 +78,7 @@ func runBurstChild(r *vlib.Run) {
 		h.close()
 		r.Progress("burst history %d/%d", i+1, n)
 	}
-	m := r.N(25, 400)
+	m := r.N(25, 600)
 	for i := 0; i < m; i++ {
 		runOneHistory(r, 200000+i, histCfg(r, 200000+i), r.RandN("hist-race", i))
 	}
@@ -232,7 +232,7 @@ func requireFull(r *vlib.Run) {
 		"full_killswitch_queries": 6, "full_state_checks": 100,
 		"full_local_followup_shed": 2, "full_shed_global_pool_replies": 1, "full_shed_zone_quota_replies": 1,
 		"full_local_followup_budget": 1, "full_budget_exhausted_replies": 1,
-		"full_client_left_while_parked_at_authority": 2,
+		"full_client_left_while_parked_at_authority": 2, "full_client_left_during_ns_address_lookup": 1,
 		"full_enrichment_failures_observed": 1, "full_local_followup_enrichment": 1,
 	} {
 		r.Require(k, v)
